@@ -15,6 +15,7 @@ import (
 )
 
 type SpecEnv struct {
+	curBlock *ssa.BasicBlock // block of the program point of an assert/assume clause (nil: unknown)
 	e         *Engine
 	vars      map[string]Val
 	lets      map[string]SExpr
@@ -724,6 +725,68 @@ func (e *Engine) trCall(env *SpecEnv, n SCall) Val {
 			e.specFail(env, id.Name+": the call has fewer results")
 		}
 		return v.Tuple[k]
+	case "resultOf", "argOf":
+		// resultOf("callee#k") / argOf("callee#k", i): the result (i-th argument) of the k-th call of callee in the
+		// function under verification, as executed on the current path. Only meaningful where that call dominates
+		// the clause's program point, which is the specification writer's obligation at call/return/backedge sites
+		// (checked: the call must exist and have been executed in the current pass).
+		if env.fc == nil || len(n.Args) == 0 {
+			e.specFail(env, id.Name+" is only available in assert/assume/invariant clauses")
+		}
+		ks, ok := n.Args[0].(SStr)
+		if !ok {
+			e.specFail(env, id.Name+": first argument must be a string literal \"callee#k\"")
+		}
+		key := "call " + ks.V
+		if !strings.Contains(key, "#") {
+			key += "#0"
+		}
+		if env.fc.fn.Pkg != nil {
+			name := strings.TrimPrefix(key, "call ")
+			if !strings.ContainsAny(name[:strings.Index(name, "#")], "./(") {
+				key = "call " + strings.ReplaceAll(env.fc.fn.Pkg.Pkg.Path(), repoMod+"/", "") + "." + name
+			}
+		}
+		var call *ssa.Call
+		for _, b := range env.fc.fn.Blocks {
+			for _, ins := range b.Instrs {
+				if c, ok := ins.(*ssa.Call); ok && e.callKey(env.fc, c.Common(), c) == key {
+					call = c
+				}
+			}
+		}
+		if call == nil {
+			e.specFail(env, id.Name+": no such call in the function: "+key)
+		}
+		if env.curBlock != nil && call.Block() != env.curBlock && !call.Block().Dominates(env.curBlock) {
+			e.specFail(env, id.Name+": the call "+key+" does not dominate this program point")
+		}
+		if id.Name == "resultOf" {
+			v, ok := env.fc.regs[call]
+			if !ok {
+				e.specFail(env, id.Name+": the call "+key+" was not executed before this program point")
+			}
+			if len(v.Tuple) > 0 {
+				if len(n.Args) == 2 {
+					if lit, ok := n.Args[1].(SInt); ok {
+						k, _ := strconv.Atoi(lit.V)
+						return v.Tuple[k]
+					}
+				}
+				return v.Tuple[0]
+			}
+			return v
+		}
+		lit, ok2 := n.Args[1].(SInt)
+		if len(n.Args) != 2 || !ok2 {
+			e.specFail(env, "argOf(\"callee#k\", i)")
+		}
+		k, _ := strconv.Atoi(lit.V)
+		cargs := call.Common().Args
+		if k >= len(cargs) {
+			e.specFail(env, "argOf: the call has fewer arguments")
+		}
+		return e.dataVal(e.val(env.fc, cargs[k]))
 	case "lastCopied":
 		// number of bytes the most recent io.Copy call reported
 		return intVal(e.heapIn(env.st, "GH_io.lastCopied", "Int"))
@@ -897,6 +960,28 @@ func (e *Engine) trMethodCall(env *SpecEnv, s SSel, args []SExpr) Val {
 	full := m.FullName()
 	if h, ok := pureSpecMethods[full]; ok {
 		return h(e, env, vals)
+	}
+	// a loop-free repository method: executed symbolically on the current state
+	if fn := e.w.Prog.FuncValue(m); fn != nil && len(fn.Blocks) > 0 && isRepoFn(fn) {
+		dummy := &fnCtx{fn: fn}
+		if e.canInline(dummy, fn) {
+			fsig := fn.Signature
+			if fsig.Recv() != nil {
+				vals[0].GoT = fsig.Recv().Type()
+			}
+			for i := 1; i < len(vals); i++ {
+				if i-1 < fsig.Params().Len() {
+					vals[i].GoT = fsig.Params().At(i - 1).Type()
+				}
+			}
+			e.dry++
+			res := e.inlineCall(dummy, env.st.clone(), fn, vals, nil, fsig.Results())
+			e.dry--
+			if fsig.Results().Len() == 1 {
+				res.GoT = fsig.Results().At(0).Type()
+			}
+			return res
+		}
 	}
 	e.specFail(env, "method "+full+" cannot be used in specifications")
 	return Val{}
